@@ -27,6 +27,61 @@ CHECKS = {
         "Trusted: math.comb based index formula and a textbook Levenshtein DP (self-tested against the recursive definition).",
         "DESIGN.md §3 C19",
     ),
+    "C02": (
+        "end-to-end runs of `whatshap phase` on simulated genomes with error-free reads under interposed trace monitors; oracle = "
+        "generator ground truth vs. own text-level decoders of the PS/HP output (up to one flip per set); ASan/UBSan lane (thorough)",
+        "Thousands of simulated data sets (all variant types, clean and free read ends, depths above the cap, several samples, both "
+        "tags, with/without reference) are phased by the real pipeline; every output phase set is compared with the truth; the "
+        "captured solver instances are re-costed.",
+        "Trusted: the simulator (reads are exact haplotype copies with indels at the left-normalised position) and the decoders.",
+        "DESIGN.md §3 C02",
+    ),
+    "C03": (
+        "trace monitor: reads handed to the solver (interposed PedigreeDPTable) -> BFS components -> compared with PS/HP of every "
+        "phased call in the output; pedigree merge rule from an own parse of the input genotypes; read-list cross check",
+        "Thousands of phase runs with interleaved/nested/cut components, pedigrees and both tags; every phased call's set id is "
+        "checked against the independently computed component.",
+        "Trusted: BFS model; connectivity defined over covered variants.",
+        "DESIGN.md §3 C03",
+    ),
+    "C04": (
+        "offline checker over files: htslib record differ between input and output of `whatshap phase` on hostile VCFs, with a GT "
+        "policy per target / non-target call and header-definition checks",
+        "Thousands of hostile inputs x --sample/--chromosome/tag/only-snvs/distrust/ped selections; every record and call is compared.",
+        "Trusted: pysam/htslib parsing (inputs htslib cannot copy are skipped and counted).",
+        "DESIGN.md §3 C04",
+    ),
+    "C05": (
+        "offline Mendel/orientation checker on the output VCF + trace monitor on the reported transmission vector "
+        "(interposed PedigreeDPTable), on simulated trios/quartets with perturbed genotypes",
+        "Thousands of pedigree runs covering consistent, conflicting and missing genotype combinations with none/sparse/deep read "
+        "support; membership, exclusion, read-free genetic phasing and transmission-selected haplotype are judged per variant.",
+        "Trusted: own VCF parser/decoders; the transmission convention pinned by the repository's own test helper.",
+        "DESIGN.md §3 C05",
+    ),
+    "C09": (
+        "metamorphic monitor (PS run vs HP run), round-trip monitor (trace of what the writer was given vs two textual decoders "
+        "and whatshap's reader), reproduction monitor for phased-VCF input, staleness monitor over phase/unphase/re-phase histories",
+        "Hundreds of cases per run in four strata; each decoded phase statement is matched against what the last run wrote.",
+        "Trusted: the two textual decoders (HP entry k names the haplotype of the k-th GT allele).",
+        "DESIGN.md §3 C09",
+    ),
+    "C11": (
+        "reference-model monitor: own intersection blocks + definitional error counts (exhaustive permutation DP for ploidy 3-4) "
+        "vs. whatshap compare's TSV outputs; identity, metamorphic (haplotype relabelling) and auxiliary-file consistency monitors; "
+        "ASan/UBSan lane",
+        "Thousands of generated pairs/triples of phasings (ploidy 2-4, all block structures, planted switch runs) are compared by "
+        "the real command; every pairwise row, the longest-block file, the BED file and the multiway histogram are judged.",
+        "Trusted: the definitional oracle; for ploidy > 2 only the minimal joint sum is judged.",
+        "DESIGN.md §3 C11",
+    ),
+    "C20": (
+        "conservation monitors over recorded writer events (interposed write_recombination_list / write_changed_genotypes / "
+        "ReadList.write and every solver instance) vs. the three report files; soundness checks against trace and output VCF",
+        "Hundreds of multi-chromosome x multi-family runs per tier with every subset of the three report options.",
+        "Trusted: the interposed wrappers only record arguments/return values and delegate.",
+        "DESIGN.md §3 C20",
+    ),
     "C07": (
         "post-condition oracle on readselection's result + invariant/temporal/conservation monitors on the interposed "
         "coverage monitor (cap after every insertion, check-before-insert, exactly-once charging) over generated and "
